@@ -3,6 +3,18 @@
 REFLECT = "Go reflect / runtime semantics as specified in the model (DESIGN.md 3.4)"
 
 PROPS = {
+    "C04": {
+        "gens": [],
+        "lean": "Anko.Props.C04",
+        "streams": [{"name": "scope", "n_quick": 100, "n_thorough": 100},
+                    {"name": "vm", "n_quick": 3000, "n_thorough": 60000}],
+        "trusted": ["the interpreter model lean/Anko/Model/Eval.lean mirrors vm/*.go on fragment F0 (validated by the vm and scope streams each run: "
+                    "result, error text, probe trace, poll count, final bindings)",
+                    "Go stubs bound by the harness = goSig/goRun of the model"],
+        "assumptions": ["fragment F0: no element assignment, typed containers, pointers, channels, goroutines (such programs are answered `unsupported` and not compared)",
+                        "model fuel: running out of fuel is `unsupported`, never a wrong answer"],
+        "partial": ["fresh_scope_per_call is stated for the allocation step (newScope_fresh); 'ids never reused / parent links never change' along whole runs is not yet a global theorem"],
+    },
     "C19": {
         "gens": ["Packages"],
         "lean": "Anko.Props.C19",
@@ -52,6 +64,19 @@ PROPS = {
 
 # Texts for MANIFEST.json (level_claimed.text, level_note, technique, design_ref)
 MANIFEST_TEXT = {
+    "C04": {
+        "text": "Machine-checked proof (Lean 4, mutual induction on fuel over all 28 functions of the interpreter model) that EVERY statement and "
+                "expression restores the scope pointer on EVERY exit path (normal, break/continue/return, errors caught or not, interruption) - "
+                "for all programs of fragment F0, unbounded in size and nesting; plus: lookups depend only on the parent chain (non-ancestor "
+                "scopes are invisible), nearest binding wins, assignment updates the nearest binding else defines here, define touches only "
+                "the addressed scope, every invocation gets a freshly allocated scope under the captured one. Correspondence: 700 scope "
+                "templates (24 wrappers x actions x exit paths) and thousands of random programs through model and interpreter; oracle: "
+                "expected bindings computed from the template.",
+        "note": "Trusted: Lean kernel; fidelity of the hand-written interpreter model (checked differentially on every run, 0 disagreements "
+                "required); fragment F0 only.",
+        "technique": "Lean 4 proof (induction on fuel, grind) over an executable interpreter model + differential correspondence",
+        "design_ref": "DESIGN.md section 6 (C04)",
+    },
     "C19": {
         "text": "Machine-checked proofs (Lean 4): for ALL int64 start/stop/step the range loop (mirrored from core.go, with the overflow "
                 "guard of fix b27c448) terminates, yields the progression from start with every element strictly before stop, is maximal, "
